@@ -63,7 +63,7 @@ func (v *Validator) Validate(claims *Claims) error {
 	}
 
 	if claims.Expiration > 0 {
-		if !toTime(claims.Expiration).After(now.Add(-v.opts.ClockSkew)) {
+		if !toTime(claims.Expiration).Add(v.opts.ClockSkew).After(now) {
 			return fmt.Errorf("cose/cwt: Validator.Validate: token has expired")
 		}
 	}
@@ -113,7 +113,7 @@ func (v *Validator) ValidateMap(claims ClaimsMap) error {
 			return fmt.Errorf("cose/cwt: Validator.Validate: token has an invalid exp claim, %w", err)
 		}
 
-		if !toTime(exp).After(now.Add(-v.opts.ClockSkew)) {
+		if !toTime(exp).Add(v.opts.ClockSkew).After(now) {
 			return fmt.Errorf("cose/cwt: Validator.Validate: token has expired")
 		}
 	}
